@@ -137,4 +137,176 @@ theorem value_report_follows_sync (s : Bool) (c : Cfg) (p : Addr) :
       simp only [List.flatMap_cons, valuePairEntries, List.filterMap_cons, List.singleton_append]
       exact ⟨by rw [h1], h2⟩
 
+/-! ## a document compared with itself -/
+
+theorem refl_dict (s : Bool) (c : Cfg) (p : Addr) (fs : List (Key × Node)) : ∀ (es : List (Key × Node)),
+    (∀ kv ∈ es, fs.lookup kv.1 = some kv.2) →
+    (∀ kv ∈ es, ∀ q, clean (diffBetween s c q kv.2 kv.2) = true) →
+    clean (diffDict s c p es fs) = true := by
+  intro es
+  induction es with
+  | nil => intro _ _; simp [diffDict]
+  | cons e es ih =>
+    obtain ⟨k, v⟩ := e
+    intro hl hc
+    have h1 := hl (k, v) (List.mem_cons_self ..)
+    simp only at h1
+    simp only [diffDict, h1, clean_append, Bool.and_eq_true]
+    exact ⟨hc (k, v) (List.mem_cons_self ..) _,
+      ih (fun kv h => hl kv (List.mem_cons_of_mem _ h)) (fun kv h => hc kv (List.mem_cons_of_mem _ h))⟩
+
+theorem refl_pos (s : Bool) (c : Cfg) (p : Addr) : ∀ (xs : List Node) (i : Nat),
+    (∀ x ∈ xs, ∀ q, clean (diffBetween s c q x x) = true) → clean (diffPos s c p i xs xs) = true := by
+  intro xs
+  induction xs with
+  | nil => intro i _; simp [diffPos, addSeq]
+  | cons x xs ih =>
+    intro i h
+    simp only [diffPos, clean_append, Bool.and_eq_true]
+    exact ⟨h x (List.mem_cons_self ..) _, ih (i + 1) (fun y hy => h y (List.mem_cons_of_mem _ hy))⟩
+
+theorem refl_shallow (p : Addr) : ∀ (xs : List Node) (i : Nat),
+    (∀ x ∈ xs, eqv x x = true) → clean (posShallow p i xs xs) = true := by
+  intro xs
+  induction xs with
+  | nil => intro i _; simp [posShallow]
+  | cons x xs ih =>
+    intro i h
+    simp only [posShallow, clean_cons, scalarEntry, h x (List.mem_cons_self ..), Bool.and_eq_true]
+    exact ⟨by simp, ih (i + 1) (fun y hy => h y (List.mem_cons_of_mem _ hy))⟩
+
+theorem refl_value (s : Bool) (c : Cfg) (p : Addr) : ∀ (xs : List Node) (i : Nat),
+    (∀ x ∈ xs, eqv x x = true) → (∀ x ∈ xs, ∀ q, clean (diffBetween s c q x x) = true) →
+    clean (diffValue s c p i xs (enumFrom i xs)).1 = true ∧ (diffValue s c p i xs (enumFrom i xs)).2 = [] := by
+  intro xs
+  induction xs with
+  | nil => intro i _ _; simp [diffValue, enumFrom]
+  | cons x xs ih =>
+    intro i he hc
+    have hx := he x (List.mem_cons_self ..)
+    have hrf : removeFirst (fun y => eqv y x) ((i, x) :: enumFrom (i + 1) xs) = some ((i, x), enumFrom (i + 1) xs) :=
+      removeFirst_head (by simpa using hx)
+    obtain ⟨h1, h2⟩ := ih (i + 1) (fun y hy => he y (List.mem_cons_of_mem _ hy)) (fun y hy => hc y (List.mem_cons_of_mem _ hy))
+    simp only [diffValue, enumFrom, hrf, clean_append, Bool.and_eq_true]
+    exact ⟨⟨hc x (List.mem_cons_self ..) _, h1⟩, h2⟩
+
+theorem refl_key (s : Bool) (c : Cfg) (p : Addr) (deep : Bool) (ka : Key) : ∀ (xs : List Node) (i : Nat),
+    (∀ x ∈ xs, keyMatch ka x x = true) → (∀ x ∈ xs, eqv x x = true) →
+    (∀ x ∈ xs, ∀ q, clean (diffBetween s c q x x) = true) →
+    clean (diffKey s c p deep ka i xs (enumFrom i xs)) = true := by
+  intro xs
+  induction xs with
+  | nil => intro i _ _ _; simp [diffKey, enumFrom]
+  | cons x xs ih =>
+    intro i hk he hc
+    have hrf : removeFirst (keyMatch ka x) ((i, x) :: enumFrom (i + 1) xs) = some ((i, x), enumFrom (i + 1) xs) :=
+      removeFirst_head (hk x (List.mem_cons_self ..))
+    have ih' := ih (i + 1) (fun y hy => hk y (List.mem_cons_of_mem _ hy)) (fun y hy => he y (List.mem_cons_of_mem _ hy))
+      (fun y hy => hc y (List.mem_cons_of_mem _ hy))
+    simp only [diffKey, enumFrom, hrf, clean_append, Bool.and_eq_true]
+    refine ⟨?_, ih'⟩
+    cases deep with
+    | true => simpa using hc x (List.mem_cons_self ..) _
+    | false => simp [scalarEntry, he x (List.mem_cons_self ..)]
+
+theorem refl_node (s : Bool) (c : Cfg) : ∀ (l : Node), wf l = true → keyed c l = true →
+    ∀ p, clean (diffBetween s c p l l) = true := by
+  intro l
+  induction l using nodeInduct with
+  | hscalar a v => intro _ _ p; simp [diffBetween, scalarEntry, eqv]
+  | hset a ms =>
+    intro _ _ p
+    simp only [diffBetween, clean_append, Bool.and_eq_true]
+    constructor
+    · simp only [clean, List.all_map, List.all_eq_true]
+      intro k hk
+      simp [hk]
+    · have : ms.filter (fun k => !(ms.contains k)) = [] := by
+        rw [List.filter_eq_nil_iff]
+        intro k hk
+        simp [hk]
+      rw [this]
+      rfl
+  | hmap a es ih =>
+    intro hw hk p
+    obtain ⟨hd, hv⟩ := wf_map hw
+    have hke := keyedEntries_mem (by simpa [keyed] using hk : keyedEntries c es = true)
+    simp only [diffBetween, clean_append, Bool.and_eq_true]
+    constructor
+    · exact refl_dict s c p es es (fun kv h => lookup_of_mem hd kv h) (fun kv h q => ih kv h (hv kv h) (hke kv h) q)
+    · have : es.filter (fun kv => !(hasKey es kv.1)) = [] := by
+        rw [List.filter_eq_nil_iff]
+        intro kv hkv
+        simp [hasKey_of_mem hkv]
+      simp [this]
+  | hseq a xs ih =>
+    intro hw hk p
+    have hwx := wf_seq_mem hw
+    obtain ⟨hid, hkx⟩ := keyed_seq hk
+    have hc : ∀ x ∈ xs, ∀ q, clean (diffBetween s c q x x) = true := fun x hx q => ih x hx (hwx x hx) (hkx x hx) q
+    have he : ∀ x ∈ xs, eqv x x = true := fun x hx => eqv_refl x (hwx x hx)
+    simp only [diffBetween]
+    cases hm : listMode c xs xs with
+    | nothing => simp
+    | posShallow => exact refl_shallow p xs 0 he
+    | posDeep => exact refl_pos s c p xs 0 hc
+    | value =>
+      obtain ⟨h1, h2⟩ := refl_value s c p xs 0 he hc
+      simp only [h2, mergeAdds]
+      exact h1
+    | key =>
+      have hu : usesKeySync c xs = true := by simp [usesKeySync, hm]
+      exact refl_key s c p false _ xs 0 (fun x hx => keyMatch_refl (hwx x hx) (hid hu x hx)) he hc
+    | deep =>
+      have hu : usesKeySync c xs = true := by simp [usesKeySync, hm]
+      exact refl_key s c p true _ xs 0 (fun x hx => keyMatch_refl (hwx x hx) (hid hu x hx)) he hc
+
+/-- **A document compared with itself shows no difference** — in every array mode and every
+Array-of-Hashes mode, for the code as it is (`s = false`) and for the strict variant.
+`wf`: mapping keys / set members are distinct (Python guarantees it).  `keyed c l`: under the
+identity-key modes (`key`, `deep`) every record of a synchronised list carries the identity key
+(no condition in the other modes; without it the code reports the key-less record as deleted and
+added: finding C06-K2, witness below). -/
+theorem diff_refl (s : Bool) (c : Cfg) (l : Node) (hw : wf l = true) (hk : keyed c l = true) :
+    clean (diff s c l l) = true := refl_node s c l hw hk []
+
+/-- in the modes without identity keys `keyed` holds for every document -/
+theorem keyed_of_no_key_sync (c : Cfg) (h : c.aoh ≠ .key ∧ c.aoh ≠ .deep) : ∀ (l : Node), keyed c l = true := by
+  intro l
+  induction l using nodeInduct with
+  | hscalar a v => rfl
+  | hset a ms => rfl
+  | hmap a es ih =>
+    simp only [keyed]
+    induction es with
+    | nil => rfl
+    | cons e es ihe =>
+      obtain ⟨k, v⟩ := e
+      simp only [keyedEntries, Bool.and_eq_true]
+      exact ⟨ih (k, v) (List.mem_cons_self ..), ihe (fun kv hkv => ih kv (List.mem_cons_of_mem _ hkv))⟩
+  | hseq a xs ih =>
+    have hu : usesKeySync c xs = false := by
+      obtain ⟨arr, aoh⟩ := c
+      cases xs with
+      | nil => rfl
+      | cons x xs =>
+        cases aoh <;> cases arr <;> cases hx : isMap x <;> simp_all [usesKeySync, listMode]
+    simp only [keyed, hu, Bool.not_false, Bool.true_or, Bool.true_and]
+    clear hu
+    induction xs with
+    | nil => rfl
+    | cons x xs ihx =>
+      simp only [keyedList, Bool.and_eq_true]
+      exact ⟨ih x (List.mem_cons_self ..), ihx (fun y hy => ih y (List.mem_cons_of_mem _ hy))⟩
+
+/-- the finding C06-K2 on the model: `[{a: 1}, {b: 2}]` compared with itself under `--aoh key` -/
+example : clean (report ⟨.position, .key⟩
+    (.seq none [.map none [(.str ['a'], .scalar none (.int 1))], .map none [(.str ['b'], .scalar none (.int 2))]])
+    (.seq none [.map none [(.str ['a'], .scalar none (.int 1))], .map none [(.str ['b'], .scalar none (.int 2))]])) = false := by
+  decide +kernel
+
+example : keyed ⟨.position, .key⟩
+    (.seq none [.map none [(.str ['a'], .scalar none (.int 1))], .map none [(.str ['a'], .scalar none (.int 2))]]) = true := by
+  decide +kernel
+
 end Ypv.C06
